@@ -1,0 +1,188 @@
+//! Read-only verification hooks, compiled only with `--cfg qcow2_rs_verif`.
+//!
+//! Nothing here changes device state or issues backend requests, except the
+//! two thin wrappers that expose the crate-private allocator entry points.
+use super::*;
+use crate::meta::{Table, TableEntry};
+use std::sync::atomic::Ordering;
+
+/// One cached metadata slice as seen by the hooks
+#[derive(Debug, Clone)]
+pub struct VerifSlice {
+    pub key: usize,
+    pub offset: Option<u64>,
+    pub dirty: bool,
+    /// raw bytes of the slice (None if the slice lock is write-held)
+    pub bytes: Option<Vec<u8>>,
+}
+
+/// Snapshot of the in-ram metadata of one device
+#[derive(Debug, Clone, Default)]
+pub struct VerifSnapshot {
+    pub l1: Vec<u64>,
+    pub l1_offset: Option<u64>,
+    pub l1_header_entries: u32,
+    pub l1_dirty_blocks: Vec<u32>,
+    pub rt: Vec<u64>,
+    pub rt_offset: Option<u64>,
+    pub rt_dirty_blocks: Vec<u32>,
+    pub l2_slices: Vec<VerifSlice>,
+    pub rb_slices: Vec<VerifSlice>,
+    pub l2_wmap: usize,
+    pub rb_wmap: usize,
+    pub l2_limit: usize,
+    pub rb_limit: usize,
+    pub new_clusters: Vec<(u64, Option<bool>)>,
+    pub free_hint: u64,
+    pub need_flush: bool,
+    pub hdr_l1_offset: u64,
+    pub hdr_l1_entries: usize,
+    pub hdr_rt_offset: u64,
+    pub hdr_rt_clusters: usize,
+}
+
+/// `HostCluster` index arithmetic, exposed for the codec differential
+#[derive(Debug, Clone, Default)]
+pub struct VerifHostSplit {
+    pub rt_index: usize,
+    pub rb_index: usize,
+    pub rb_slice_index: usize,
+    pub rb_slice_key: usize,
+    pub rb_slice_host_start: u64,
+    pub rb_slice_host_end: u64,
+    pub rb_host_start: u64,
+    pub rb_host_end: u64,
+    pub rb_slice_off_in_table: usize,
+}
+
+pub fn verif_host_cluster_split(info: &Qcow2Info, off: u64) -> VerifHostSplit {
+    let c = HostCluster(off);
+    VerifHostSplit {
+        rt_index: c.rt_index(info),
+        rb_index: c.rb_index(info),
+        rb_slice_index: c.rb_slice_index(info),
+        rb_slice_key: c.rb_slice_key(info),
+        rb_slice_host_start: c.rb_slice_host_start(info),
+        rb_slice_host_end: c.rb_slice_host_end(info),
+        rb_host_start: c.rb_host_start(info),
+        rb_host_end: c.rb_host_end(info),
+        rb_slice_off_in_table: c.rb_slice_off_in_table(info),
+    }
+}
+
+/// geometry fields of `Qcow2Info` that are crate-private
+pub fn verif_info_fields(info: &Qcow2Info) -> Vec<(&'static str, u64)> {
+    vec![
+        ("block_size_shift", info.block_size_shift as u64),
+        ("cluster_shift", info.cluster_shift as u64),
+        ("l2_index_shift", info.l2_index_shift as u64),
+        ("l2_slice_index_shift", info.l2_slice_index_shift as u64),
+        ("l2_slice_bits", info.l2_slice_bits as u64),
+        ("refcount_order", info.refcount_order as u64),
+        ("rb_slice_bits", info.rb_slice_bits as u64),
+        ("rb_index_shift", info.rb_index_shift as u64),
+        ("rb_slice_index_shift", info.rb_slice_index_shift as u64),
+        ("l2_slice_entries", info.l2_slice_entries as u64),
+        ("l2_cache_cnt", info.l2_cache_cnt as u64),
+        ("rb_cache_cnt", info.rb_cache_cnt as u64),
+        ("virtual_size", info.virtual_size),
+        ("read_only", info.is_read_only() as u64),
+        ("has_back_file", info.has_back_file() as u64),
+        ("back_file", info.is_back_file() as u64),
+    ]
+}
+
+fn slice_snapshot<B: Table>(
+    cache: &crate::cache::AsyncLruCache<usize, AsyncRwLock<B>>,
+) -> Vec<VerifSlice> {
+    let mut v: Vec<VerifSlice> = cache
+        .verif_entries()
+        .into_iter()
+        .map(|(key, e)| {
+            let dirty = e.is_dirty();
+            match e.value().try_read() {
+                Ok(t) => {
+                    let bytes =
+                        unsafe { std::slice::from_raw_parts(t.as_ptr(), t.byte_size()) }.to_vec();
+                    VerifSlice {
+                        key,
+                        offset: t.get_offset(),
+                        dirty,
+                        bytes: Some(bytes),
+                    }
+                }
+                Err(_) => VerifSlice {
+                    key,
+                    offset: None,
+                    dirty,
+                    bytes: None,
+                },
+            }
+        })
+        .collect();
+    v.sort_by_key(|s| s.key);
+    v
+}
+
+impl<T: Qcow2IoOps> Qcow2Dev<T> {
+    /// Read-only snapshot of every piece of in-ram metadata. Uses `try_read`
+    /// only, so it never waits and never perturbs lock queues; fields whose
+    /// lock is write-held are left at their default.
+    pub fn verif_snapshot(&self) -> VerifSnapshot {
+        let mut s = VerifSnapshot::default();
+        if let Ok(l1) = self.l1table.try_read() {
+            s.l1 = (0..l1.entries()).map(|i| l1.get(i).into_plain()).collect();
+            s.l1_offset = l1.get_offset();
+            s.l1_header_entries = l1.verif_header_entries();
+            s.l1_dirty_blocks = l1.verif_dirty_blocks();
+        }
+        if let Ok(rt) = self.reftable.try_read() {
+            s.rt = (0..rt.entries()).map(|i| rt.get(i).into_plain()).collect();
+            s.rt_offset = rt.get_offset();
+            s.rt_dirty_blocks = rt.verif_dirty_blocks();
+        }
+        s.l2_slices = slice_snapshot(&self.l2cache);
+        s.rb_slices = slice_snapshot(&self.refblock_cache);
+        s.l2_wmap = self.l2cache.verif_wmap_len();
+        s.rb_wmap = self.refblock_cache.verif_wmap_len();
+        s.l2_limit = self.l2cache.verif_limit();
+        s.rb_limit = self.refblock_cache.verif_limit();
+        if let Ok(map) = self.new_cluster.try_read() {
+            let mut v: Vec<(u64, Option<bool>)> = map
+                .iter()
+                .map(|(k, l)| (*k, l.try_read().ok().map(|g| *g)))
+                .collect();
+            v.sort();
+            s.new_clusters = v;
+        }
+        s.free_hint = self.free_cluster_offset.load(Ordering::Relaxed);
+        s.need_flush = self.need_flush_meta();
+        if let Ok(h) = self.header.try_read() {
+            s.hdr_l1_offset = h.l1_table_offset();
+            s.hdr_l1_entries = h.l1_table_entries();
+            s.hdr_rt_offset = h.reftable_offset();
+            s.hdr_rt_clusters = h.reftable_clusters();
+        }
+        s
+    }
+
+    /// The backing device, if any (read-only access for snapshots)
+    pub fn verif_backing(&self) -> Option<&Qcow2Dev<T>> {
+        self.backing_file.as_deref()
+    }
+
+    /// The backend handle of this device
+    pub fn verif_file(&self) -> &T {
+        &self.file
+    }
+
+    /// Thin wrapper exposing the crate-private allocator entry point
+    pub async fn verif_allocate_clusters(&self, count: usize) -> Qcow2Result<Option<(u64, usize)>> {
+        self.allocate_clusters(count).await
+    }
+
+    /// Thin wrapper exposing the crate-private free entry point
+    pub async fn verif_free_clusters(&self, host_cluster: u64, count: usize) -> Qcow2Result<()> {
+        self.free_clusters(host_cluster, count).await
+    }
+}
